@@ -154,23 +154,35 @@ func checkSkipTable(c *Ctx, fields []string) {
 	}
 	info := fi.Info()
 	protos := map[string]bool{}
-	ast.Inspect(fi.Decl.Body, func(m ast.Node) bool {
-		cl, ok := m.(*ast.CompositeLit)
-		if !ok {
-			return true
-		}
-		if sl, ok := info.TypeOf(cl).Underlying().(*types.Slice); !ok || !typeIs(sl.Elem(), pSchema, "Change") {
-			return true
-		}
-		for _, e := range cl.Elts {
-			if un, ok := e.(*ast.UnaryExpr); ok {
-				if n := namedOf(info.TypeOf(un.X)); n != nil {
-					protos[n.Obj().Name()] = true
-				}
+	// the prototype list: a []schema.Change literal in Diff.Options or in a package-local function it calls
+	scope := []*FuncInfo{fi}
+	for _, call := range callsIn(fi.Decl.Body, true) {
+		if fn := calleeOf(info, call); fn != nil && fn.Pkg() != nil && fn.Pkg().Path() == pCmdapi {
+			if cf := c.FuncInfoOf(fn); cf != nil && cf.Decl.Body != nil {
+				scope = append(scope, cf)
 			}
 		}
-		return false
-	})
+	}
+	for _, sf := range scope {
+		sinfo := sf.Info()
+		ast.Inspect(sf.Decl.Body, func(m ast.Node) bool {
+			cl, ok := m.(*ast.CompositeLit)
+			if !ok {
+				return true
+			}
+			if sl, ok := sinfo.TypeOf(cl).Underlying().(*types.Slice); !ok || !typeIs(sl.Elem(), pSchema, "Change") {
+				return true
+			}
+			for _, e := range cl.Elts {
+				if un, ok := e.(*ast.UnaryExpr); ok {
+					if n := namedOf(sinfo.TypeOf(un.X)); n != nil {
+						protos[n.Obj().Name()] = true
+					}
+				}
+			}
+			return false
+		})
+	}
 	var missingProto, missingField []string
 	fset := map[string]bool{}
 	for _, f := range fields {
@@ -276,6 +288,12 @@ func checkSkipTable(c *Ctx, fields []string) {
 		ast.Inspect(sf.Decl.Body, func(m ast.Node) bool {
 			if rs, isR := m.(*ast.RangeStmt); isR && isField(sinfo, rs.X, pSchema, "DiffOptions", "SkipChanges") {
 				rangesSkip = true
+			}
+			// slices.ContainsFunc / IndexFunc / slices.Contains over SkipChanges visit every entry as well
+			if call, isC := m.(*ast.CallExpr); isC && len(call.Args) >= 1 && isField(sinfo, call.Args[0], pSchema, "DiffOptions", "SkipChanges") {
+				if fn := calleeOf(sinfo, call); fn != nil && fn.Pkg() != nil && fn.Pkg().Path() == "slices" && (fn.Name() == "ContainsFunc" || fn.Name() == "IndexFunc") {
+					rangesSkip = true
+				}
 			}
 			return true
 		})
